@@ -76,10 +76,10 @@ static const struct ztype zoo[T_NTYPES] = {
     [T_GENAUX]     = { "genaux", upipe_genaux_mgr_alloc, CLS_REGROUP, true, false, 0 },
 };
 
-enum { CL_SWAP_AFTER_DATA, CL_RELEASE_MID, CL_SUBCHURN, CL_REJECT, CL_FLOWDEF_CHANGE, CL_DELIVERED8, CL_SEGMENTED, CL_OPT_REJECTED, CL_OPT_GET_AFTER_SET, CL_CHAIN2, CL_POOL, CL_REPLUG };
+enum { CL_SWAP_AFTER_DATA, CL_RELEASE_MID, CL_SUBCHURN, CL_REJECT, CL_FLOWDEF_CHANGE, CL_DELIVERED8, CL_SEGMENTED, CL_OPT_REJECTED, CL_OPT_GET_AFTER_SET, CL_CHAIN2, CL_POOL, CL_REPLUG, CL_PROBE_DROP };
 static const char *const class_names[] = {
     "output_replaced_after_data", "release_in_mid_history", "subpipe_churn", "sink_rejected_flow_def", "flow_def_changed_after_data",
-    "delivered_ge_8", "segmented_payload", "option_set_rejected", "option_get_after_set_then_data", "chain_of_2plus", "pool_depth_gt0", "output_plugged_from_need_output", NULL };
+    "delivered_ge_8", "segmented_payload", "option_set_rejected", "option_get_after_set_then_data", "chain_of_2plus", "pool_depth_gt0", "output_plugged_from_need_output", "buffer_dropped_on_request_of_the_probe_uref_handler", NULL };
 
 enum out_kind { OUT_NONE = 0, OUT_NEXT, OUT_SINKA, OUT_SINKB };
 enum hstate { H_NONE = 0, H_VALID, H_INVALID };
@@ -128,6 +128,9 @@ struct ctx {
     bool skip_getters;      /* C20 second pass: same history without the getter calls */
     int force_pool;         /* C01 second pass: pool depth override (-1: from the tape) */
     int replugs;            /* C01: outputs plugged from need_output so far */
+    bool lazy;              /* C05: need_output is answered by plugging a free sink */
+    bool probe_drop, drop_now;   /* C05: the application answers probe_uref with "drop" for some buffers */
+    int lazy_plugged;       /* C05: number of outputs plugged that way during the current input */
     uint64_t trace;         /* hash of everything the sinks saw */
 };
 
@@ -278,6 +281,8 @@ static bool apply_expected(struct ctx *c, struct zpipe *z, struct uref *ref)
             if (z->dictv >= 3) uref_attr_set_small_unsigned(ref, 9, UDICT_TYPE_SMALL_UNSIGNED, "x.small");
         }
         return true;
+    case T_PROBE_UREF:
+        return !c->drop_now;
     case T_SETRAP:
         if (z->opt[0] != UINT64_MAX) uref_clock_set_rap_sys(ref, z->opt[0]);
         return true;
@@ -459,6 +464,47 @@ static void end_op(struct ctx *c, const char *what)
 /* model: push a buffer through pipes j.. applying the documented transformations to ref.
  * Returns true if it reaches the link to sink *sink_p (whether the sink takes it is decided by the
  * sink's recorded answers); *dup_ref_p receives a copy of the reference as it enters a dup pipe. */
+#if PIPES_PROP == 5
+/* C05: pipelines built lazily.  A pipe without output throws need_output when it has a buffer to forward; the application plugs a
+ * free sink from inside the event, and that very buffer has to reach it. */
+static bool drop_on_probe_uref(struct pfx *pfx, int probe_id, struct upipe *upipe, struct uref *uref, void *opaque)
+{
+    struct ctx *c = opaque;
+    if (c->drop_now) { R("      (probe_uref: the application asks to drop this buffer)\n"); c->classes |= 1u << CL_PROBE_DROP; }
+    return c->drop_now;
+}
+
+static enum out_kind lazy_choice(struct ctx *c, int j)
+{
+    if (!c->lazy || c->p[j].type == T_DUP) return OUT_NONE;     /* (a duplicating pipe forwards through its output subpipes) */
+    for (enum out_kind k = OUT_SINKA; k <= OUT_SINKB; k++) {
+        bool used = false;
+        for (int o = 0; o < c->np; o++) if (o != j && c->p[o].upipe && c->p[o].out == k) used = true;
+        if (!used) return k;
+    }
+    return OUT_NONE;
+}
+
+static int lazy_plug_on_need_output(struct pfx *pfx, int probe_id, struct upipe *upipe, void *opaque)
+{
+    struct ctx *c = opaque;
+    for (int j = 0; j < c->np; j++) {
+        struct zpipe *z = &c->p[j];
+        if (z->probe != probe_id || z->upipe != upipe || !zoo[z->type].has_output) continue;
+        if (z->out != OUT_NONE) return UBASE_ERR_UNHANDLED;        /* its output refused the definition: left alone */
+        enum out_kind to = lazy_choice(c, j);
+        if (to == OUT_NONE) return UBASE_ERR_UNHANDLED;
+        R("      (need_output from p%d: the application plugs sink %c)\n", j, to == OUT_SINKA ? 'A' : 'B');
+        z->out = to; z->sent_def = -1;
+        c->connect_seq[to == OUT_SINKA ? 0 : 1] = pfx->seq;
+        c->classes |= 1u << CL_REPLUG;
+        c->lazy_plugged++;
+        return upipe_set_output(upipe, to == OUT_SINKA ? c->sink[0] : c->sink[1]);
+    }
+    return UBASE_ERR_UNHANDLED;
+}
+#endif
+
 static bool model_path(struct ctx *c, int j, struct uref *ref, int *sink_p, bool *strict_p, int *dup_j, struct uref **dup_ref_p)
 {
     *strict_p = true;
@@ -475,7 +521,13 @@ static bool model_path(struct ctx *c, int j, struct uref *ref, int *sink_p, bool
         }
         if (z->type == T_DUP && *dup_ref_p == NULL && *strict_p) { *dup_j = j; *dup_ref_p = uref_dup(ref); }
         if (!apply_expected(c, z, ref)) return false;
-        if (z->out == OUT_NONE) return false;
+        if (z->out == OUT_NONE) {
+#if PIPES_PROP == 5
+            enum out_kind to = lazy_choice(c, j);
+            if (to != OUT_NONE) { *sink_p = to == OUT_SINKA ? 0 : 1; return true; }
+#endif
+            return false;
+        }
         if (z->out == OUT_NEXT) {
             struct zpipe *n = &c->p[j + 1];
             if (z->sent_def != outv(z)) {       /* the output helper sends its definition when it changed or the output was (re)connected */
@@ -517,6 +569,7 @@ static void op_input(struct ctx *c)
     uint8_t f = tp_u8(&c->t);
     s.dates = f & 15; s.attrs = f >> 4;
     s.base = (f & 1) ? 1000000 : 5;
+    c->drop_now = c->probe_drop && (sz >> 5) == 5;
     struct uref *in = mk_input(c, &s), *ref = mk_input(c, &s);
     if (!in || !ref) { uref_free(in); uref_free(ref); c->ret = vp_internal(c->rep, "mk_input"); return; }
     char what[96];
@@ -527,19 +580,24 @@ static void op_input(struct ctx *c)
     bool reaches = model_path(c, j, ref, &si, &strict, &dup_j, &dup_ref);
     for (int k = j; k < c->np; k++) c->p[k].data_flowed = true;
     c->any_data = true;
+    c->lazy_plugged = 0;
     upipe_input(z->upipe, in, NULL);
+    c->drop_now = false;
     /* the sink's own answers decide: last flow-definition record since it was connected */
-    bool expect = false;
+    bool expect = false, offered = false;
     if (reaches) {
         struct pfx *pfx = &c->pfx;
         for (int k = pfx->nrecs - 1; k >= 0; k--) {
             struct pfx_rec *q = &pfx->recs[k];
             if (q->seq < c->connect_seq[si]) break;
             if (q->sink != c->sinkid[si]) continue;
-            if (q->kind == PFX_FLOWDEF_ACCEPTED) { expect = true; break; }
-            if (q->kind == PFX_FLOWDEF_REJECTED) break;
+            if (q->kind == PFX_FLOWDEF_ACCEPTED) { expect = offered = true; break; }
+            if (q->kind == PFX_FLOWDEF_REJECTED) { offered = true; break; }
         }
     }
+    /* an output plugged from need_output is there for the buffer that caused the event: the pipe offers it its definition */
+    if (ORACLE_DATA && reaches && c->lazy_plugged && !offered)
+        FAILP(true, "delivery/lost", "%s: the output plugged from inside need_output was offered neither the flow definition nor the buffer", what);
     /* dup: every output that exists gets its own copy */
     if (dup_ref) {
         struct zpipe *d = &c->p[dup_j];
@@ -924,6 +982,10 @@ static int run_once(const uint8_t *tp_, size_t len, struct vp_report *rep, unsig
      * sink, as applications that build their pipelines lazily do */
     if ((cfgb / 12) % 3 == 2) { c->pfx.need_output_hook = replug_on_need_output; c->pfx.need_output_opaque = c; }
     if ((cfgb / 36) % 2 == 1) { c->pfx.event_hook = release_on_source_end; c->pfx.event_opaque = c; }
+#endif
+#if PIPES_PROP == 5
+    if ((cfgb / 36) % 2 == 1) { c->probe_drop = true; c->pfx.probe_uref_hook = drop_on_probe_uref; c->pfx.probe_uref_opaque = c; }
+    if ((cfgb / 12) % 3 == 2) { c->lazy = true; c->pfx.need_output_hook = lazy_plug_on_need_output; c->pfx.need_output_opaque = c; }
 #endif
     c->np = 1 + tp_u8(&c->t) % MAXP;
     if (c->np >= 2) c->classes |= 1u << CL_CHAIN2;
